@@ -11,7 +11,7 @@ T = {
  "C02": ("exploration", "exhaustive enumeration of (key, declared algorithm, format, scheme) cells executed against the library",
          "The finite table of leaf key kinds x declared algorithms x formats x schemes is enumerated completely, each cell with a genuinely valid signature for the declared algorithm where the key admits one; accept/reject and reported algorithm/hash are compared with the six-row table; look-alike and duplicate alg headers, remote signers whose declared key spec lies or changes between calls, and the same cells on an envelope object that has signed before, are included.", "Trusts std crypto for producing the valid off-diagonal signatures.", "DESIGN 4/C02"),
  "C03": ("exploration", "differential run against a reference chain predicate over a violation/variation catalogue at every position",
-         "ValidateCodeSigningCertChain (and the envelope routes) is executed on chains of length 1-5 built from a catalogue of single violations, benign variations and their pairs at every position, and its boolean verdict compared with a reference predicate written from the statement.", "Reference predicate (<150 lines) and crypto/x509 parsing are trusted; shapes listed in DESIGN 7 are outside the generated domain.", "DESIGN 4/C03"),
+         "ValidateCodeSigningCertChain (and the envelope routes) is executed on chains of length 1-5 built from a catalogue of single violations, benign variations and their pairs at every position, and its boolean verdict compared with a reference predicate written from the statement; validation histories (conforming chain before and after issuer look-alikes that keep every other certificate byte-identical) are judged step by step, since a verdict may not depend on what the process validated before.", "Reference predicate (<150 lines) and crypto/x509 parsing are trusted; shapes listed in DESIGN 7 are outside the generated domain.", "DESIGN 4/C03"),
  "C04": ("exploration", "runtime monitor over the responder's deliver log (evidence-based oracle) under scripted forged/stale/malformed replies",
          "The real OCSP client is run against an in-process forging responder for every single and pair (and all/sampled triples) of ~56 behaviours x GET/POST x EC/RSA issuer x signing time x both entry points (also with a clean CRL behind the responders, and as second calls on a used validator); OK is admitted only if the responder double itself says it delivered an authentic current Good reply to that certificate, and a first usable authentic Revoked must yield Revoked. A Good answer is also watched crossing its next-update instant under continuous calls.", "Authenticity labels come from the double's construction (Appendix A.2). Scripted nextUpdate instants are 2001/2096; the boundary is observed live with the sound rule 'began after the instant and still OK' (a loaded machine can make that observation empty, never wrong).", "DESIGN 4/C04"),
  "C05": ("exploration", "differential run against a reference scan of distribution points, fed by what was delivered",
@@ -31,9 +31,9 @@ T = {
  "C12": ("exploration", "result-shape invariant monitor over results produced under forced completion orders",
          "A pure invariant checker (length, position/URL ownership, root NonRevokable, verdict vs server-result shape, InvalidChainError on invalid/empty chains) runs on every result of a dedicated sweep (lengths 1-5, all outcome classes, both purposes, invalid chains, all completion orders via the barrier transport) cancelled calls, roots that advertise responders, broken arrangements of a chain validated a moment earlier, signing times outside every validity period; every returned result is scribbled over after judging.", "Shape rules are those documented in result.CertRevocationResult.", "DESIGN 4/C12"),
  "C13": ("exploration", "set-equality monitor between returned extended attributes and an independent protected-header decode",
-         "Independently signed envelopes with 0-6 extra protected headers (text and COSE integer labels, all value kinds, every critical subset, phantom and specification crit entries) are verified; the attribute multiset must equal the independent decode minus specification labels with criticality = crit membership.", "Independent codec trusted; F10 (JWS numbers beyond 2^53) is a recorded known finding.", "DESIGN 4/C13"),
+         "Independently signed envelopes with 0-6 extra protected headers (text and COSE integer labels, all value kinds, every critical subset, phantom and specification crit entries) are verified; the attribute multiset must equal the independent decode minus specification labels with criticality = crit membership; requests signed by the library with attribute keys of several Go types are read back from the signing object and from the parsed bytes.", "Independent codec trusted; F10 (JWS numbers beyond 2^53) is a recorded known finding.", "DESIGN 4/C13"),
  "C14": ("exploration", "differential run against a reference timestamping-chain predicate",
-         "As C03 for ValidateTimestampingCertChain, with the EKU set ranging over all subsets x criticalities, plus the revocation validator configured for the timestamping purpose as a second observation point.", "Reference predicate trusted.", "DESIGN 4/C14"),
+         "As C03 for ValidateTimestampingCertChain, with the EKU set ranging over all subsets x criticalities, plus the revocation validator configured for the timestamping purpose as a second observation point, and the same validation histories on byte-identical certificates.", "Reference predicate trusted.", "DESIGN 4/C14"),
  "C15": ("fault_enumeration", "fault enumeration at the TSA and revocation-validator boundaries with a reference conjunction and imprint recomputation",
          "An in-process RFC 3161 authority behind tspclient's HTTP timestamper serves every catalogue behaviour x every revocation-result vector (nil / empty caller root pools with the host trust store holding the authority's root, requests passed through WithContext, two authorities with different trust); Sign must succeed exactly when the reference conjunction holds, the embedded token must be the served one with imprint = H(signature), failures must be TimestampError with no bytes, and no request may reach the TSA under signingAuthority or without a timestamper.", "TSA double is trusted to label what it served.", "DESIGN 4/C15"),
  "C16": ("exploration", "negative-request monitor: every invalidating change and pair must yield error and no bytes; controls must succeed",
